@@ -174,7 +174,7 @@ func runStr(c *hx.Ctx, r *hx.Rng, st *state) bool {
 	line := c.Emit(op, ans)
 	c.Count("str:family:" + fam)
 	c.Count(fmt.Sprintf("str:type:%d:mode:%d", ty, mode))
-	c.Case(op, mode > 0 || len(strs) == 0)
+	c.Case(opKey(op), mode > 0 || len(strs) == 0)
 	if perr != "" || err != nil {
 		c.Violation(line, "str_encode_failure", perr+fmt.Sprint(err))
 		return true
